@@ -491,3 +491,166 @@ func readFailureLeavesLoop(call *ssa.Call, l *Loop) bool {
 	}
 	return false
 }
+
+// clientBoundedLoops: A4 counts a stepped counter as progress, which is right for termination
+// but not for "no request makes the connection spin or stall" when the bound is an integer the
+// client chose: `for n := 0; n < count; n++ { if empty { continue } ... }` runs 2^63 times.
+// Such a loop is acceptable when every cycle also does the work the count stands for (takes an
+// element from a slice of the store, appends the result of a read, ...), i.e. is additionally
+// bounded by existing data; a cycle that only steps the counter is reported.
+func (p *Program) clientBoundedLoopVerdict(fn *ssa.Function, l *Loop) (applies bool, ok bool, why string) {
+	// a counter phi compared with a parameter-derived bound
+	var fromParam func(v ssa.Value, d int) bool
+	fromParam = func(v ssa.Value, d int) bool {
+		if v == nil || d > 6 {
+			return false
+		}
+		switch x := v.(type) {
+		case *ssa.Parameter:
+			return isIntType(x.Type()) && p.paramMayCarryClientInt(x)
+		case *ssa.BinOp:
+			return fromParam(x.X, d+1) || fromParam(x.Y, d+1)
+		case *ssa.Convert:
+			return fromParam(x.X, d+1)
+		case *ssa.Phi:
+			if l.Blocks[x.Block()] {
+				return false
+			}
+			for _, e := range x.Edges {
+				if fromParam(e, d+1) {
+					return true
+				}
+			}
+		}
+		return false
+	}
+	bounded := false
+	for _, b := range l.sortedBlocks() {
+		if len(b.Instrs) == 0 {
+			continue
+		}
+		iff, ok := b.Instrs[len(b.Instrs)-1].(*ssa.If)
+		if !ok {
+			continue
+		}
+		exits := false
+		for _, s := range b.Succs {
+			if !l.Blocks[s] {
+				exits = true
+			}
+		}
+		if !exits {
+			continue
+		}
+		for _, at := range atomsOf(iff.Cond, true) {
+			if at.Kind != "lt" && at.Kind != "le" {
+				continue
+			}
+			cnt, bound := at.X, at.Y
+			if ph, ok := linOf(cnt).base.(*ssa.Phi); ok && l.Blocks[ph.Block()] && fromParam(bound, 0) && !mentionsLen(bound, 0) {
+				bounded = true
+			}
+		}
+	}
+	if !bounded {
+		return false, true, ""
+	}
+	// work events: a slice held in a field shortened, a map entry deleted, a blocking read
+	work := map[*ssa.BasicBlock]bool{}
+	for b := range l.Blocks {
+		for _, ins := range b.Instrs {
+			if cl, ok := ins.(*ssa.Call); ok && nameIn(calleeName(cl.Common()), blockingReadNames...) {
+				work[b] = true
+			}
+			switch x := ins.(type) {
+			case *ssa.Store:
+				if sl, ok := x.Val.(*ssa.Slice); ok {
+					if _, _, _, isField := fieldOf(x.Addr); isField {
+						if (sl.Low != nil || sl.High != nil) && sameFieldLoad(sl.X, x.Addr) {
+							work[b] = true
+						}
+					}
+				}
+			case *ssa.Call:
+				if bi, ok := x.Common().Value.(*ssa.Builtin); ok && bi.Name() == "delete" {
+					work[b] = true
+				}
+			}
+		}
+	}
+	if cyc := l.cycleAvoiding(work); cyc != nil {
+		return true, false, "the loop is bounded only by an integer the client supplies, and a cycle of it does nothing but step the counter (no element taken, nothing deleted): a huge count keeps the connection busy for ever"
+	}
+	return true, true, "bounded by a client integer, but every cycle consumes stored data"
+}
+
+func sameFieldLoad(v ssa.Value, addr ssa.Value) bool {
+	ld, ok := v.(*ssa.UnOp)
+	if !ok || ld.Op != token.MUL {
+		return false
+	}
+	fa1, ok1 := ld.X.(*ssa.FieldAddr)
+	fa2, ok2 := addr.(*ssa.FieldAddr)
+	return ok1 && ok2 && fa1.Field == fa2.Field && fa1.X == fa2.X
+}
+
+// mentionsLen: the expression contains a len(...) (the bound is tied to existing data).
+func mentionsLen(v ssa.Value, d int) bool {
+	if v == nil || d > 6 {
+		return false
+	}
+	switch x := v.(type) {
+	case *ssa.Call:
+		if bi, ok := x.Common().Value.(*ssa.Builtin); ok && (bi.Name() == "len" || bi.Name() == "cap") {
+			return true
+		}
+		// Size()-style accessors of the repository returning a length
+		if h := staticCallee(x.Common()); h != nil && inRepo(h) && h.Blocks != nil {
+			for _, r := range returnsOf(h) {
+				if len(r.Results) == 1 && linOf(retOperand(r, 0)).isLen {
+					return true
+				}
+			}
+		}
+	case *ssa.BinOp:
+		return mentionsLen(x.X, d+1) || mentionsLen(x.Y, d+1)
+	case *ssa.Convert:
+		return mentionsLen(x.X, d+1)
+	case *ssa.Phi:
+		for _, e := range x.Edges {
+			if mentionsLen(e, d+1) {
+				return true
+			}
+		}
+	}
+	return false
+}
+
+// paramMayCarryClientInt: some caller in the repository passes a value that is not a constant
+// (or the function has no static caller at all: it is reached through an interface, as the
+// handler methods of the example store are).
+func (p *Program) paramMayCarryClientInt(par *ssa.Parameter) bool {
+	fn := par.Parent()
+	idx := -1
+	for i, q := range fn.Params {
+		if q == par {
+			idx = i
+		}
+	}
+	sites := p.staticCallSites(fn)
+	n := 0
+	for _, s := range sites {
+		if !inProd(s.Parent()) {
+			continue
+		}
+		n++
+		args := s.Common().Args
+		if idx < 0 || idx >= len(args) {
+			return true
+		}
+		if _, isC := args[idx].(*ssa.Const); !isC {
+			return true
+		}
+	}
+	return n == 0
+}
